@@ -8,6 +8,7 @@ Property theorems only; proofs of the lemmas are in `Lemmas/Diff.lean`.
 -/
 import AnnetModel.Lemmas.Diff
 import AnnetModel.Lemmas.DiffText
+import AnnetModel.Lemmas.DiffWhole
 
 /-! OBLIGATIONS
 Annet.Diff.C03_proj_new
@@ -16,6 +17,8 @@ Annet.Diff.C03_ops_exact
 Annet.Diff.C03_moved_characterisation
 Annet.Diff.C03_self_diff_empty
 Annet.Diff.C03_strip_idempotent
+Annet.Diff.C03_make_diff_ops_exact
+Annet.Diff.C03_make_diff_projections
 Annet.Diff.C03_diff_text_roundtrip
 Annet.Diff.C03_diff_text_injective
 Annet.Diff.C03_stripped_diff_has_text
@@ -79,6 +82,34 @@ theorem C03_self_diff_empty (fuel : Nat) (a : ACfg) (d : List DItem)
 
 theorem C03_strip_idempotent (d : List DItem) : stripUnchanged (stripUnchanged d) = stripUnchanged d :=
   Lemmas.strip_idempotent d
+
+/-! ### the whole `make_diff`, at every depth (Spec/DiffWhole.lean)
+
+The theorems above speak of one diff-logic group (one call of `base_diff`) with an arbitrary recursive callee.  These two
+lift them over the groups of a level (`call_diff_logic`), over the depth (the fuel is never exhausted) and through
+`mark_unchanged`. -/
+
+/-- Ops are exact at every depth of the diff `make_diff` returns, for any of the three standard diff logics: ADDED only if
+absent from old and present in new, REMOVED the other way round, every other op only for rows present on both sides.
+`NoDupRows`: sibling rows are distinct (Python dict keys; without it the statement is false for a repeated block row,
+kernel-checked counterexample in `Lemmas/DiffWhole.lean`). -/
+theorem C03_make_diff_ops_exact (rules : PRules) (old new : Cfg) (ao an : ACfg) (d : List DItem)
+    (ha : annotate rules old = .ok ao) (hn : annotate rules new = .ok an)
+    (hdo : NoDupRows ao) (hdn : NoDupRows an)
+    (h : makeDiff rules old new = .ok d) :
+    ExactL ao.kids an.kids d :=
+  Lemmas.makeDiff_ops_exact rules old new ao an d ha hn hdo hdn h
+
+/-- From the diff alone both inputs can be reconstructed, with block nesting intact: dropping ADDED entries (at every
+depth) gives `old`, dropping REMOVED entries gives `new`, each restricted to the rows the rulebook knows, per level as a
+multiset — for rulebooks comparing with `default_diff` / `ordered_diff` (`rewrite_diff` drops a group that did not
+change, by design). -/
+theorem C03_make_diff_projections (rules : PRules) (old new : Cfg) (ao an : ACfg) (d : List DItem)
+    (ha : annotate rules old = .ok ao) (hn : annotate rules new = .ok an)
+    (hdo : NoDupRows ao) (hdn : NoDupRows an) (hpo : PlainLogics ao) (hpn : PlainLogics an)
+    (h : makeDiff rules old new = .ok d) :
+    RPerm (projOld d) (rtreeOfL ao.kids) ∧ RPerm (projNew d) (rtreeOfL an.kids) :=
+  Lemmas.makeDiff_projections rules old new ao an d ha hn hdo hdn hpo hpn h
 
 /-! ### the textual views carry the same information (Model/DiffText.lean, Spec/DiffText.lean)
 
